@@ -1,6 +1,7 @@
 import StorageModel.Driver.Common
 import StorageModel.Codec.CompoundKey
 import StorageModel.Codec.Bucket
+import StorageModel.Codec.Context
 /- model driver for C13: `run spec` reads case lines on stdin and prints one output line per case
    (spec = false: the engine model's output; spec = true: the tokens the property demands — the
    check requires every spec token to occur among the implementation's tokens).
@@ -11,6 +12,14 @@ import StorageModel.Codec.Bucket
      j <w>... | <w>...        are the two encodings equal?
      e c=<chk> m=<map> <op>.. entity script: ops `p…` (pre-state, own transaction, no checker) and
                               `w…` (the write under the checker); then every getter on every field
+     h x=<path> c=<chk> <tok>..  entity write through derived contexts, on a parent / child store pair
+                              (child entity bucket = `<path>` below the parent store's entity bucket,
+                              `x=-`: the store has no parent; `X=`: the Update is issued on the parent
+                              store and handed to the child store).  `@<p|w><^|.>[/<w>/..][~a>b,..]` opens a block:
+                              phase (`p` = the Create that builds the pre-state, nil checker; `w` = the
+                              Update under the checker), the context (`^` = ctx.GetParentContext(), `.` =
+                              ctx), an optional GetOrCreatePath below its bucket, optional
+                              WithFieldOverrides; `<code>:<field>:<value>` tokens are its field operations
    value text: N | S<wire> | i<int> | I<int> | n<int> | F<hex16> | B0 | B1 | T<hex> | M(<wire>=V,…) | L(V,…) | U -/
 namespace StorageModel.Driver.C13
 open StorageModel StorageModel.Driver StorageModel.Codec
@@ -248,8 +257,7 @@ def resText {α : Type} (f : α → String) : Res α → String
   | .ok a => f a
   | .panic => "panic"
 
-def fieldReads (es : Bkt) (f : Bytes) : List String :=
-  let p := "f:" ++ wire f ++ ":"
+def fieldReadsP (p : String) (es : Bkt) (f : Bytes) : List String :=
   let kind := match look es f with
     | none => "absent"
     | some (.val _) => "val"
@@ -265,6 +273,8 @@ def fieldReads (es : Bkt) (f : Bytes) : List String :=
     p ++ "sl=" ++ listText ((getStringList es f).getD []),
     p ++ "m=" ++ resText showV (getMap es f),
     p ++ "l=" ++ resText (optText showV) (getList es f) ]
+
+def fieldReads (es : Bkt) (f : Bytes) : List String := fieldReadsP ("f:" ++ wire f ++ ":") es f
 
 def dedupKeep (xs : List Bytes) : List Bytes :=
   xs.foldl (fun acc x => if acc.contains x then acc else acc ++ [x]) []
@@ -317,8 +327,7 @@ def stepE (toks : List String) : String :=
 /-! ### the spec of an entity script: the last effective write of each field decides what its
     primary getter returns; a field without effective write is absent -/
 
-def demands (f : Bytes) (op : Option FieldOp) : List String :=
-  let p := "f:" ++ wire f ++ ":"
+def demandsP (p : String) (op : Option FieldOp) : List String :=
   let allNil := [p ++ "s=nil", p ++ "b=nil", p ++ "i32=nil", p ++ "i64=nil", p ++ "f64=nil", p ++ "t=nil"]
   match op with
   | none => [p ++ "k=absent"]
@@ -332,6 +341,8 @@ def demands (f : Bytes) (op : Option FieldOp) : List String :=
   | some (.strList xs) | some (.getAndSetStrList xs) => [p ++ "sl=" ++ listText (sortDedup xs)]
   | some (.map kvs _) => [p ++ "m=" ++ showV (normalize (.map kvs))]
   | some (.list xs) => [p ++ "l=" ++ showV (normalize (.list xs))]
+
+def demands (f : Bytes) (op : Option FieldOp) : List String := demandsP ("f:" ++ wire f ++ ":") op
 
 def specE (toks : List String) : String :=
   match parseScript toks with
@@ -355,6 +366,177 @@ def specE (toks : List String) : String :=
         | _ => true
       " ".intercalate (["err=none"] ++ fields.flatMap fun f => if sup (eff f) then demands f (eff f) else [])
 
+/-! ## hierarchy scripts: writes through derived contexts -/
+
+def pathText (p : List Bytes) : String := "/".intercalate (p.map wire)
+
+def parsePath (t : String) : Option (List Bytes) :=
+  if t.isEmpty then some [] else (t.splitOn "/").mapM Bytes.ofHex
+
+structure HGroup where
+  pre : Bool
+  g : Group
+
+/-- `@<p|w><^|.>[/<w>/..][~a>b,..]` -/
+def parseHeader (tok : String) : Option HGroup :=
+  match tok.toList with
+  | '@' :: ph :: tg :: rest =>
+    let body := String.ofList rest
+    let (pt, ov) := match body.splitOn "~" with
+      | [a] => (a, none)
+      | [a, b] => (a, some b)
+      | _ => ("?", none)
+    let np := if pt.isEmpty then some [] else if pt.startsWith "/" then parsePath (pt.drop 1).toString else none
+    let ovr : Option (Option (List (Bytes × Bytes))) := match ov with
+      | none => some none
+      | some b => (parseMappings ("m=" ++ b)).map some
+    match np, ovr with
+    | some np, some ovr =>
+      if (ph == 'p' || ph == 'w') && (tg == '^' || tg == '.') then
+        some { pre := ph == 'p', g := { parent := tg == '^', ovr := ovr, np := np, ops := [] } }
+      else none
+    | _, _ => none
+  | _ => none
+
+def parseHOp (tok : String) : Option (Bytes × FieldOp) :=
+  match tok.splitOn ":" with
+  | [code, fw, vt] => do
+    let f ← Bytes.ofHex fw
+    let v ← parseValue vt
+    let op ← mkFieldOp code v
+    pure (f, op)
+  | _ => none
+
+def parseGroups (toks : List String) (cur : Option HGroup) (acc : List HGroup) : Option (List HGroup) :=
+  match toks with
+  | [] => some (acc ++ cur.toList)
+  | t :: r =>
+    if t.startsWith "@" then
+      match parseHeader t with
+      | none => none
+      | some h => parseGroups r (some h) (acc ++ cur.toList)
+    else
+      match cur, parseHOp t with
+      | some h, some fo => parseGroups r (some { h with g := { h.g with ops := h.g.ops ++ [fo] } }) acc
+      | _, _ => none
+
+structure HScript where
+  own : List Bytes
+  parentPath : Option (List Bytes)
+  chk : Checker
+  groups : List HGroup
+
+def parseHScript (toks : List String) : Option HScript :=
+  match toks with
+  | x :: c :: rest => do
+    let chk ← parseChk c
+    let gs ← parseGroups rest none []
+    if x == "x=-" then pure { own := [], parentPath := none, chk := chk, groups := gs }
+    else if x.startsWith "x=" || x.startsWith "X=" then do   -- X: the Update goes through the parent store's ChildStoreUpdateHandler
+      let p ← parsePath (x.drop 2).toString
+      pure { own := p, parentPath := some [], chk := chk, groups := gs }
+    else none
+  | _ => none
+
+/-- the bucket a block writes into, as a path below the root entity bucket -/
+def groupBucket (sc : HScript) (g : Group) : List Bytes :=
+  (if g.parent then sc.parentPath.getD [] else sc.own) ++ g.np
+
+structure HRun where
+  st : RunState
+  failed : Option String     -- "panic" / "err=…" of the phase that stopped the script
+
+def runH (sc : HScript) : HRun :=
+  -- Create: the store's entity bucket is there before the strategy runs
+  let root := (getOrCreatePath [] sc.own).1
+  let pre := (sc.groups.filter (·.pre)).map (·.g)
+  let wr := (sc.groups.filter (!·.pre)).map (·.g)
+  let s1 := runGroups { tb := { es := root }, ctx := { path := sc.own, parentPath := sc.parentPath, chk := none, isCreate := true } } pre
+  if s1.panicked then { st := s1, failed := some "panic" }
+  else match s1.tb.err with
+    | some e => { st := s1, failed := some ("err=" ++ errName e) }
+    | none =>
+      let s2 := runGroups { tb := s1.tb, ctx := { path := sc.own, parentPath := sc.parentPath, chk := sc.chk }, nested := s1.nested } wr
+      if s2.panicked then { st := s2, failed := some "panic" }
+      else match s2.tb.err with
+        | some e => { st := s2, failed := some ("err=" ++ errName e) }
+        | none => { st := s2, failed := none }
+
+def dedupPairs (xs : List (List Bytes × Bytes)) : List (List Bytes × Bytes) :=
+  xs.foldl (fun acc x => if acc.contains x then acc else acc ++ [x]) []
+
+/-- every (bucket, field) the script names, in order; the blocks run phase by phase -/
+def hFields (sc : HScript) : List (List Bytes × Bytes) :=
+  let ordered := sc.groups.filter (·.pre) ++ sc.groups.filter (!·.pre)
+  dedupPairs (ordered.flatMap fun h => h.g.ops.map fun o => (groupBucket sc h.g, o.1))
+
+def hPrefix (bp : List Bytes) (f : Bytes) : String := "f:" ++ pathText bp ++ "|" ++ wire f ++ ":"
+
+def stepH (toks : List String) : String :=
+  match parseHScript toks with
+  | none => "bad-case"
+  | some sc =>
+    let r := runH sc
+    match r.failed with
+    | some f => f
+    | none =>
+      let root := r.st.tb.es
+      let nested := (List.range r.st.nested.length).zip r.st.nested |>.map fun (i, e) =>
+        s!"n{i}=" ++ (match e with | none => "none" | some e => errName e)
+      let reads := (hFields sc).flatMap fun (bp, f) =>
+        match subAt root bp with
+        | none => ["b:" ++ pathText bp ++ "|" ++ wire f ++ "=absent"]
+        | some b => fieldReadsP (hPrefix bp f) b f
+      -- the tree after a refused write is not modelled: only the error classes are compared then
+      if r.st.nested.any (·.isSome) then " ".intercalate (["err=none"] ++ nested)
+      else " ".intercalate (["err=none"] ++ nested ++ reads ++ ["dump=" ++ dumpB root])
+
+/-- the checker each write-phase block runs under: `WithFieldOverrides` on the context itself stays
+    for the later blocks, a parent context inherits the context's checker of that moment -/
+def groupCheckers (chk : Checker) : List Group → List (Group × Checker)
+  | [] => []
+  | g :: r =>
+    let c := match g.ovr with
+      | none => chk
+      | some m => withFieldOverrides chk m
+    (g, c) :: groupCheckers (if g.parent then chk else c) r
+
+def isPrefixOf (a b : List Bytes) : Bool := a.length ≤ b.length && b.take a.length == a
+
+/-- what the property demands of a hierarchy script: in every bucket a field holds what its last
+    effective write left (pre-state writes, writes the block's checker selects, `SetNil`); a field
+    without one is absent.  No demand when a write was refused, and none when a written entry is
+    (an ancestor of) a bucket another block writes into. -/
+def specH (toks : List String) : String :=
+  match parseHScript toks with
+  | none => "bad-case"
+  | some sc =>
+    let r := runH sc
+    if r.failed.isSome || r.st.nested.any (·.isSome) then "-"
+    else
+      let buckets := [sc.own, sc.parentPath.getD []] ++ sc.groups.map (fun h => groupBucket sc h.g)
+      let entries := sc.groups.flatMap fun h => h.g.ops.map fun o => groupBucket sc h.g ++ [o.1]
+      if entries.any (fun e => buckets.any (isPrefixOf e)) then "-"
+      else
+        let pre := (sc.groups.filter (·.pre)).map (·.g)
+        let wr := groupCheckers sc.chk ((sc.groups.filter (!·.pre)).map (·.g))
+        let writes : List (List Bytes × Bytes × FieldOp × Bool) :=
+          (pre.flatMap fun g => g.ops.map fun o => (groupBucket sc g, o.1, o.2, true)) ++
+          (wr.flatMap fun (g, c) => g.ops.map fun o => (groupBucket sc g, o.1, o.2,
+            match o.2 with
+            | .setNil => true
+            | _ => match c with
+              | none => true
+              | some f => f o.1))
+        let eff (bp : List Bytes) (f : Bytes) : Option FieldOp :=
+          writes.foldl (fun cur w => if w.1 = bp && w.2.1 = f && w.2.2.2 then some w.2.2.1 else cur) none
+        let sup (op : Option FieldOp) : Bool := match op with
+          | some (.map kvs _) => supported (.map kvs)
+          | some (.list xs) => supported (.list xs)
+          | _ => true
+        " ".intercalate (["err=none"] ++ (hFields sc).flatMap fun (bp, f) =>
+          if sup (eff bp f) then demandsP (hPrefix bp f) (eff bp f) else [])
+
 def step (line : String) : String :=
   match splitSp line with
   | "k" :: ws => stepK ws
@@ -363,6 +545,7 @@ def step (line : String) : String :=
     | none => "bad-case"
   | "j" :: ws => stepJ ws
   | "e" :: toks => stepE toks
+  | "h" :: toks => stepH toks
   | _ => "bad-case"
 
 def specStep (line : String) : String :=
@@ -371,6 +554,7 @@ def specStep (line : String) : String :=
   | ["d", _] => "-"
   | "j" :: ws => specJ ws
   | "e" :: toks => specE toks
+  | "h" :: toks => specH toks
   | _ => "bad-case"
 
 def run (spec : Bool) : IO Unit := forEachLine (if spec then specStep else step)
